@@ -62,6 +62,10 @@ def _run_one(m: dict, tier: str) -> tuple[dict, str, str]:
             if s.count(m["old"]) < 1:
                 return m, "APPLY-FAILED", f"pattern not found in {m['file']}"
             s = s.replace(m["old"], m["new"], m.get("count", 1))
+            for old2, new2 in m.get("more", []):  # further edits of the same file that belong to the same change
+                if old2 not in s:
+                    return m, "APPLY-FAILED", f"second pattern not found in {m['file']}"
+                s = s.replace(old2, new2, 1)
             f.write_text(s)
         env = dict(os.environ, VERIF_REPO_SRC=str(tmp / "src"), VERIF_OUT=str(tmp / "out"), VERIF_NO_SHRINK="1",
                    VERIF_JOBS=os.environ.get("VERIF_MUT_JOBS", "4"))
